@@ -15,8 +15,9 @@ CLAIMED = {
     "C20": ("Proof (deductive, unbounded) that BuildLabel.Includes equals the component-wise pattern relation selects(), that "
             "BuildLabel.Matches agrees with it for ... and :all patterns, and that the exclude-pattern filter of BuildState.ShouldInclude and "
             "isExperimental use it; that BuildLabel.String prints exactly ///subrepo (if any), //package and :name — or ... / /... for the "
-            "all-subpackages wildcard — the form the parser reads back. Kernel-only: the label parser itself (so the round trip as a whole) and "
-            "validateSandbox are not under contract.",
+            "all-subpackages wildcard — the form the parser reads back. validateSandbox accepts a sandbox opt-out through an experimental directory only for packages that ARE the directory or lie under "
+            "it (exposed the raw-prefix defect repaired in /repo). Kernel-only: the label parser itself (so the round trip as a whole) is not "
+            "under contract.",
             COMMON_NOTE + "Matches is specified for label.PackageName != \".\" (root alias).",
             "contract-based deductive verification (own WP/symbolic-execution VC generator + SMT)", "6/C20"),
     "C27": ("Proof that MergeCoverageLines returns the pointwise maximum with length extension (loop invariant, unbounded in both "
